@@ -92,12 +92,12 @@ package dig
 //@ +  && (t.kind == 'a' ==> t.elem != nil && shape(*t.elem))
 //@ +  && (t.kind == 't' ==> (forall i int :: 0 <= i && i < len(t.fields) ==> shape(t.fields[i])))
 
-//@ func hasStatic props=C09
+//@ func hasStatic props=C09,C10
 //@   requires shape(t)
 //@   ensures result == isStatic(t)
 //@   loop#0 invariant forall k int :: 0 <= k && k <= rangeindex ==> isStatic(t.fields[k])
 
-//@ func sizeof props=C09
+//@ func sizeof props=C09,C10
 //@   requires shape(t)
 //@   ensures result == headSize(t)
 //@   loop#0 invariant n == sumSize(t.fields, rangeindex + 1)
